@@ -30,6 +30,7 @@ import TboxModel.C17.Tmo
 import TboxModel.C17.SimBatch
 import TboxModel.C17.TmoCtlProofs
 import TboxModel.C17.ParChild3
+import TboxModel.C17.ParChild5
 namespace Tbox.C17
 
 /-! ## Layer 1 — one action, every call sequence
@@ -789,6 +790,11 @@ example : eval seqOverPar = some (true, 2) ∧ visit seqOverPar = [2, 3, 5] ∧
 --   through these three kinds).  Still open of stage (i): the `B` copies of IfElse / IfThen / Switch / Loop / LoopIf / Repeat
 --   (`good_twophase`, Loops.lean: the same substitution), `both_size` with `.par` (so that `SerOk` itself admits the node at any
 --   depth), and `Live` / `gen_live` over `GoodB` (liveness of parents over a Parallel child).  Stage (ii) (composite children) untouched.
+--   Round 12: the `B` copies of all six are CLOSED (ParChild4.lean: `good_twophaseB` → IfElse / Switch, `good_ifThenB`; `genRB` /
+--   `good_serialRB` → Loop / LoopIf / Repeat, where the Parallel child is reset and run AGAIN), and so is the induction: `SerParOk`
+--   (ParChild5.lean) is `SerOk` with Parallel-over-leaves nodes allowed wherever a leaf may stand, `goodB_all` is `both_size` with `.par`
+--   as one more base case — `C17_result_matches_doc_serial_with_par_leaves`.  Still open of stage (i): `Live` / `gen_live` over `GoodB`
+--   (liveness of parents over a Parallel child: `PI` has no progress measure yet), hence no `finishes_exactly_once` for the class.
 
 /-! ## Round 11 — the timeout timer in EVERY lifecycle state (reset of a BLOCKED action), timeout changes at any pass,
 ParallelAction over leaves as a CHILD of Sequence / Wrapper / Composite -/
@@ -910,6 +916,93 @@ theorem C17_par_leaves_done_as {m : Mode3} {L : List (Nat ⊕ (Bool × Nat))} {f
 /-- non-vacuity: Sequence[ f, Parallel(all)[ f, sleep 5, f ], f ] satisfies the hypotheses and runs as documented -/
 example : (∀ j c, exSeqPar.children.get? j = some c → ChildOk c) ∧ eval exSeqPar = some (true, 2) ∧ visit exSeqPar = [2, 4, 6, 7] :=
   ⟨exSeqPar_covered, exSeqPar_run.1, exSeqPar_run.2.1⟩
+
+/-! ## Round 12 — stage (i) for EVERY serial parent kind, and one theorem over the decidable class -/
+
+/-- **the whole-tree statement over the class `SerParOk`** (decidable; ParChild5.lean): the serial class of
+`C17_result_matches_doc_serial` — Function / Sleep(≥ 1 ms) leaves; Wrapper, Composite, IfElse, Switch, Sequence, IfThen, Loop, LoopIf,
+Repeat(≥ 1) with their arities, all modes, any depth, no timeouts — in which ANY leaf position may hold a ParallelAction (any mode, any
+number of children) over Function / Sleep(≥ 1 ms) leaves.  For every freshly built tree of the class and EVERY pass / clock schedule
+the observable trace is a prefix of the documented visit order, or the complete visit order followed by exactly one finish
+notification carrying the documented result.  Below Loop / LoopIf / Repeat the ParallelAction is reset and run again. -/
+theorem C17_result_matches_doc_serial_with_par_leaves (t : T) (hs : SerParOk t = true) (hc : Clean t = true) (ops : List Op)
+    (hcf : ops.all cfOp = true) (r : Bool × Nat) (hr : eval t = some r) :
+    (∃ pfx, pfx <+: visit t ∧ trOf (run t {} (.calls [.start] :: ops)).2.log = pfx.map Sum.inl) ∨
+    trOf (run t {} (.calls [.start] :: ops)).2.log = (visit t).map Sum.inl ++ [Sum.inr r] :=
+  serial_with_par_leaves t hs hc ops hcf r hr
+
+/-- the class contains the old serial class and every child allowed by the round-11 theorems -/
+theorem C17_ser_par_class_extends (t : T) : (SerOk t = true → SerParOk t = true) ∧ (ChildOk t → SerParOk t = true ∧ Clean t = true) :=
+  ⟨serParOk_of_serOk t, fun h => ⟨serParOk_of_childOk t h, (childOk_goodB t h).2⟩⟩
+
+/-- the remaining six serial parent kinds in the form of the round-11 theorems: the parent over `ChildOk` children (serial trees or
+ParallelActions over leaves, at any positions) -/
+theorem C17_result_matches_doc_ifelse_over_par_leaves (ds : Node) (cs : TL) (a b : Bool) (hk : ds.kind = .ifElse a b)
+    (hc : cleanNode ds = true) (htmo : ds.tmo = none) (hch : ∀ j c, cs.get? j = some c → ChildOk c)
+    (hlen : cs.length = 1 + (if a then 1 else 0) + (if b then 1 else 0))
+    (ops : List Op) (hcf : ops.all cfOp = true) (r : Bool × Nat) (hr : eval (.node ds cs) = some r) :
+    (∃ pfx, pfx <+: visit (.node ds cs) ∧ trOf (run (.node ds cs) {} (.calls [.start] :: ops)).2.log = pfx.map Sum.inl) ∨
+    trOf (run (.node ds cs) {} (.calls [.start] :: ops)).2.log = (visit (.node ds cs)).map Sum.inl ++ [Sum.inr r] :=
+  kind_over_par_leaves ds cs hc htmo (kindOk_ifElse ds _ a b hk hlen) hch ops hcf r hr
+
+theorem C17_result_matches_doc_ifthen_over_par_leaves (ds : Node) (cs : TL) (hk : ds.kind = .ifThen)
+    (hc : cleanNode ds = true) (htmo : ds.tmo = none) (hch : ∀ j c, cs.get? j = some c → ChildOk c) (hlen : cs.length % 2 = 0)
+    (ops : List Op) (hcf : ops.all cfOp = true) (r : Bool × Nat) (hr : eval (.node ds cs) = some r) :
+    (∃ pfx, pfx <+: visit (.node ds cs) ∧ trOf (run (.node ds cs) {} (.calls [.start] :: ops)).2.log = pfx.map Sum.inl) ∨
+    trOf (run (.node ds cs) {} (.calls [.start] :: ops)).2.log = (visit (.node ds cs)).map Sum.inl ++ [Sum.inr r] :=
+  kind_over_par_leaves ds cs hc htmo (kindOk_ifThen ds _ hk hlen) hch ops hcf r hr
+
+theorem C17_result_matches_doc_switch_over_par_leaves (ds : Node) (cs : TL) (hd : Bool) (hk : ds.kind = .switch hd)
+    (hc : cleanNode ds = true) (htmo : ds.tmo = none) (hch : ∀ j c, cs.get? j = some c → ChildOk c) (hlen : 2 ≤ cs.length)
+    (ops : List Op) (hcf : ops.all cfOp = true) (r : Bool × Nat) (hr : eval (.node ds cs) = some r) :
+    (∃ pfx, pfx <+: visit (.node ds cs) ∧ trOf (run (.node ds cs) {} (.calls [.start] :: ops)).2.log = pfx.map Sum.inl) ∨
+    trOf (run (.node ds cs) {} (.calls [.start] :: ops)).2.log = (visit (.node ds cs)).map Sum.inl ++ [Sum.inr r] :=
+  kind_over_par_leaves ds cs hc htmo (kindOk_switch ds _ hd hk hlen) hch ops hcf r hr
+
+theorem C17_result_matches_doc_loop_over_par_leaves (ds : Node) (cs : TL) (m : LoopMode) (hk : ds.kind = .loop m)
+    (hc : cleanNode ds = true) (htmo : ds.tmo = none) (hch : ∀ j c, cs.get? j = some c → ChildOk c) (hlen : cs.length = 1)
+    (ops : List Op) (hcf : ops.all cfOp = true) (r : Bool × Nat) (hr : eval (.node ds cs) = some r) :
+    (∃ pfx, pfx <+: visit (.node ds cs) ∧ trOf (run (.node ds cs) {} (.calls [.start] :: ops)).2.log = pfx.map Sum.inl) ∨
+    trOf (run (.node ds cs) {} (.calls [.start] :: ops)).2.log = (visit (.node ds cs)).map Sum.inl ++ [Sum.inr r] :=
+  kind_over_par_leaves ds cs hc htmo (kindOk_loop ds _ m hk hlen) hch ops hcf r hr
+
+theorem C17_result_matches_doc_loopif_over_par_leaves (ds : Node) (cs : TL) (fr : Bool) (hk : ds.kind = .loopIf fr)
+    (hc : cleanNode ds = true) (htmo : ds.tmo = none) (hch : ∀ j c, cs.get? j = some c → ChildOk c) (hlen : cs.length = 2)
+    (ops : List Op) (hcf : ops.all cfOp = true) (r : Bool × Nat) (hr : eval (.node ds cs) = some r) :
+    (∃ pfx, pfx <+: visit (.node ds cs) ∧ trOf (run (.node ds cs) {} (.calls [.start] :: ops)).2.log = pfx.map Sum.inl) ∨
+    trOf (run (.node ds cs) {} (.calls [.start] :: ops)).2.log = (visit (.node ds cs)).map Sum.inl ++ [Sum.inr r] :=
+  kind_over_par_leaves ds cs hc htmo (kindOk_loopIf ds _ fr hk hlen) hch ops hcf r hr
+
+theorem C17_result_matches_doc_repeat_over_par_leaves (ds : Node) (cs : TL) (n : Nat) (m : RepMode) (hk : ds.kind = .repeat_ n m)
+    (hc : cleanNode ds = true) (htmo : ds.tmo = none) (hch : ∀ j c, cs.get? j = some c → ChildOk c) (hlen : cs.length = 1) (hn : 1 ≤ n)
+    (ops : List Op) (hcf : ops.all cfOp = true) (r : Bool × Nat) (hr : eval (.node ds cs) = some r) :
+    (∃ pfx, pfx <+: visit (.node ds cs) ∧ trOf (run (.node ds cs) {} (.calls [.start] :: ops)).2.log = pfx.map Sum.inl) ∨
+    trOf (run (.node ds cs) {} (.calls [.start] :: ops)).2.log = (visit (.node ds cs)).map Sum.inl ++ [Sum.inr r] :=
+  kind_over_par_leaves ds cs hc htmo (kindOk_repeat ds _ n m hk hlen hn) hch ops hcf r hr
+
+/-- non-vacuity (kernel-evaluated): Repeat(2)[ Parallel(all)[ f4, sleep 3, f6 ] ] — the ParallelAction is reset and run a second
+time — and IfElse[ Parallel(anySucc)[ f2, f3 ], Sequence[ f5, Parallel(all)[ sleep 2, f8 ] ], f9 ] are in the class, are NOT in the old
+serial class, their evaluator result is defined, and a concrete schedule reaches the second disjunct: the complete documented
+trace with exactly one finish notification -/
+theorem C17_ser_par_class_examples :
+    (SerParOk exRepPar = true ∧ Clean exRepPar = true ∧ SerOk exRepPar = false) ∧
+    (eval exRepPar = some (true, 7) ∧ visit exRepPar = [4, 6, 4, 6] ∧
+      trOf (run exRepPar {} [.calls [.start], .pass, .adv 3, .pass, .pass, .adv 3, .pass, .pass, .pass]).2.log =
+        [Sum.inl 4, Sum.inl 6, Sum.inl 4, Sum.inl 6, Sum.inr (true, 7)]) ∧
+    (SerParOk exIfPar = true ∧ Clean exIfPar = true ∧ SerOk exIfPar = false) ∧
+    (eval exIfPar = some (true, 0) ∧ visit exIfPar = [2, 3, 5, 8] ∧
+      trOf (run exIfPar {} [.calls [.start], .pass, .pass, .adv 2, .pass, .pass, .pass, .pass]).2.log =
+        [Sum.inl 2, Sum.inl 3, Sum.inl 5, Sum.inl 8, Sum.inr (true, 0)]) :=
+  ⟨exRepPar_covered, exRepPar_run, exIfPar_covered, exIfPar_run⟩
+
+/-- non-vacuity of the six parent theorems: the hypotheses of the Repeat one hold of `exRepPar` -/
+example : (∀ j c, exRepPar.children.get? j = some c → ChildOk c) ∧ exRepPar.children.length = 1 := by
+  refine ⟨fun j c h => ?_, by decide⟩
+  match j, h with
+  | 0, h =>
+    simp only [exRepPar, T.children, TL.get?, Option.some.injEq] at h; subst h
+    exact Or.inr ⟨_, _, .all, rfl, rfl, rfl, by decide, by decide, by decide⟩
+  | n + 1, h => simp [exRepPar, T.children, TL.get?] at h
 
 /-! ### OPEN (stated, not proved; carried by the executable model + correspondence + monitors)
 
